@@ -22,20 +22,44 @@ val compOpp : comparison -> comparison
 
 val add : nat -> nat -> nat
 
+val sub : nat -> nat -> nat
+
 module Nat :
  sig
   val eqb : nat -> nat -> bool
+
+  val leb : nat -> nat -> bool
+
+  val ltb : nat -> nat -> bool
+
+  val max : nat -> nat -> nat
+
+  val divmod : nat -> nat -> nat -> nat -> nat * nat
+
+  val div : nat -> nat -> nat
  end
 
 val nth : nat -> 'a1 list -> 'a1 -> 'a1
+
+val nth_error : 'a1 list -> nat -> 'a1 option
 
 val rev : 'a1 list -> 'a1 list
 
 val rev_append : 'a1 list -> 'a1 list -> 'a1 list
 
+val map : ('a1 -> 'a2) -> 'a1 list -> 'a2 list
+
+val flat_map : ('a1 -> 'a2 list) -> 'a1 list -> 'a2 list
+
+val fold_left : ('a1 -> 'a2 -> 'a1) -> 'a2 list -> 'a1 -> 'a1
+
+val existsb : ('a1 -> bool) -> 'a1 list -> bool
+
 val firstn : nat -> 'a1 list -> 'a1 list
 
 val skipn : nat -> 'a1 list -> 'a1 list
+
+val repeat : 'a1 -> nat -> 'a1 list
 
 type positive =
 | XI of positive
@@ -96,6 +120,12 @@ module Coq_Pos :
 
   val eqb : positive -> positive -> bool
 
+  val coq_Nsucc_double : n -> n
+
+  val coq_Ndouble : n -> n
+
+  val coq_lxor : positive -> positive -> n
+
   val iter_op : ('a1 -> 'a1 -> 'a1) -> positive -> 'a1 -> 'a1
 
   val to_nat : positive -> nat
@@ -123,6 +153,14 @@ module N :
 
   val ltb : n -> n -> bool
 
+  val min : n -> n -> n
+
+  val div2 : n -> n
+
+  val even : n -> bool
+
+  val odd : n -> bool
+
   val pow : n -> n -> n
 
   val pos_div_eucl : positive -> n -> n * n
@@ -132,6 +170,8 @@ module N :
   val div : n -> n -> n
 
   val modulo : n -> n -> n
+
+  val coq_lxor : n -> n -> n
 
   val to_nat : n -> nat
 
@@ -189,6 +229,10 @@ type bytes = n list
 
 val len : bytes -> n
 
+val zeros : nat -> bytes
+
+val sub0 : nat -> nat -> bytes -> bytes
+
 val le32 : n -> bytes
 
 val le64 : n -> bytes
@@ -226,6 +270,10 @@ val two15 : n
 val z_to_u : n -> z -> n
 
 val u_to_z : n -> n -> n -> z
+
+val overwrite : bytes -> nat -> bytes -> bytes
+
+val all_zero : bytes -> bool
 
 type str = n list
 
@@ -314,8 +362,235 @@ val run_enc : str list -> str
 
 val run_dec : str list -> str
 
+val maxEntrySize : n
+
+val frameInvalid : n
+
+val frameEntry : n
+
+val frameIndex : n
+
+val frameCommit : n
+
+val file_header_len : n
+
+val frame_header_len : n
+
+val magic : n
+
+val min_buf_size : n
+
+type seginfo = { si_id : n; si_base : n; si_min : n; si_max : n;
+                 si_codec : n; si_index_start : n; si_sealed : bool;
+                 si_size_limit : n }
+
+val file_header : seginfo -> bytes
+
+val read_file_header : bytes -> ((n * n) * n) option
+
+val validate_file_header : ((n * n) * n) -> seginfo -> bool
+
+val pad_len : n -> n
+
+val enc_frame_size : n -> n
+
+val index_frame_size : n -> n
+
+val frame_header : n -> n -> bytes
+
+val enc_frame : n -> bytes -> bytes
+
+val commit_frame : n -> bytes
+
+val index_payload : n list -> bytes
+
+val index_frame : n list -> bytes
+
+type fhdr =
+| FH of n * n
+| FHZero
+| FHCorrupt
+| FHShort
+
+val read_frame_header : bytes -> fhdr
+
+val fh_len : n -> n -> n
+
+val crc_poly : n
+
+val crc_mask : n
+
+val crc_shift1 : n -> n
+
+val crc_byte : n -> n -> n
+
+val crc_raw : n -> bytes -> n
+
+val crc_update : n -> bytes -> n
+
+val crc32c : bytes -> n
+
+type waction =
+| WWrite of n * bytes
+| WSync
+
+type wres =
+| WOk
+| WErrSealed
+| WErrTooBig
+| WErrNonMono
+| WErrShortBuf
+| WErrIO
+
+type wfault =
+| FNone
+| FWrite
+| FSync
+
+type wstate = { w_info : seginfo; w_buf : bytes; w_crc : n; w_off : n;
+                w_index_start : n; w_offsets : n list; w_commit_idx : 
+                n }
+
+val set_buf : wstate -> bytes -> n -> n list -> wstate
+
+val init_empty : seginfo -> wstate
+
+type entry = n * bytes
+
+val append_entry : wstate -> entry -> wstate option
+
+val append_entries : wstate -> entry list -> wstate option
+
+val append_index : wstate -> wstate option
+
+val commit_idx_of : wstate -> n
+
+val append_commit : wstate -> wfault -> wstate option * waction list
+
+val needs_seal : wstate -> bool
+
+val too_big : entry list -> bool
+
+val append : wstate -> entry list -> wfault -> (wres * wstate) * waction list
+
+val force_seal : wstate -> wfault -> (wres * wstate) * waction list
+
+val sealed : wstate -> bool
+
+val apply_waction : bytes -> waction -> bytes
+
+val apply_wactions : bytes -> waction list -> bytes
+
+val read_at : bytes -> n -> n -> bytes
+
+type frame_ev = { fe_typ : n; fe_val : n; fe_off : n }
+
+val scan_from : nat -> bytes -> n -> frame_ev list
+
+val scan_fuel : bytes -> nat
+
+val scan : bytes -> frame_ev list
+
+val scanned_header : bytes -> (n * n) * n
+
+type commit_info = { c_crc : n; c_off : n; c_crc_start : n;
+                     c_offsets_len : nat; c_index_start : n }
+
+type rec_acc = { ra_offsets : n list; ra_pending : n;
+                 ra_prev : commit_info option; ra_final : commit_info option }
+
+val rec_step : rec_acc -> frame_ev -> rec_acc
+
+val rec_fold : frame_ev list -> rec_acc
+
+val recovered : seginfo -> n -> n -> n list -> wstate
+
+val recover_state : seginfo -> bytes -> wstate option
+
+val scrub_chunks : nat -> bytes -> n -> waction list
+
+val scrub_actions : bytes -> n -> waction list
+
+val recover_tail : seginfo -> bytes -> (wstate * waction list) option
+
+type rres =
+| ROk of bytes
+| RNotFound
+| RCorrupt
+| RErr
+
+val read_frame : bytes -> n -> rres * n
+
+val tail_offset : wstate -> n -> n option
+
+val tail_get : wstate -> bytes -> n -> rres
+
+val sealed_get : seginfo -> bytes -> n -> rres
+
+val open_sealed : seginfo -> bytes -> bool
+
+type dump_res =
+| DumpOk of (n * bytes) list
+| DumpErr of (n * bytes) list
+
+val dump_batch :
+  bytes -> ((n * n) * n) list -> (n * bytes) list -> (n * bytes) list
+  option * (n * bytes) list
+
+val dump_go :
+  bytes -> frame_ev list -> n -> n -> n -> ((n * n) * n) list -> (n * bytes)
+  list -> dump_res
+
+val dump_segment : bytes -> n -> n -> n -> dump_res
+
+type smode =
+| MTail
+| MSealed of seginfo
+| MNone
+
+type sst = { s_info : seginfo; s_file : bytes; s_w : wstate; s_mode : 
+             smode; s_pre : bytes }
+
+val s_sealedk : str
+
+val s_toobig : str
+
+val s_nonmono : str
+
+val s_nf : str
+
+val s_corrupt : str
+
+val colon : n
+
+val show_wres : wres -> str
+
+val show_rres : rres -> str
+
+val strip_zeros_rev : bytes -> bytes
+
+val strip_trailing_zeros : bytes -> bytes
+
+val parse_entries : nat -> str list -> (entry list * str list) option
+
+val crash_mix : bytes -> bytes -> n -> nat -> bytes
+
+val pad_to : nat -> bytes -> bytes
+
+val show_dump : dump_res -> str
+
+val chr : n -> str -> bool
+
+val pre_of : sst -> waction list -> bytes
+
+val run_ops : nat -> sst -> str list -> str list -> str list
+
+val run_seg : str list -> str
+
 val k_enc : str
 
 val k_dec : str
+
+val k_seg : str
 
 val run_line : str -> str
